@@ -630,9 +630,12 @@ def eval_c19(doc):
         r = prm_soundness(scn, res, space, world, goal, log)
         if r is not None:
             return r, nontrivial, len(log)
-        rust_last, py_last = doc["rust"]["calls"][-1], res[-1]
-        if rust_last["res"] == "err" and "Start state" in rust_last.get("text", "") and py_last.get("text") != rust_last.get("text"):
-            return ("C19/prm_error_differs", f"core reports {rust_last.get('text')!r}, Python {py_last}"), nontrivial, len(log)
+        # errors that are decided by the API state alone (not by what was sampled): invalid
+        # start, planner not set up, roadmap not constructed — Python must report what the core
+        # reports, at every call
+        for ci, (rc, pc) in enumerate(zip(doc["rust"]["calls"], res)):
+            if rc["res"] == "err" and rc.get("api_state") and (pc["res"] != "err" or pc.get("text") != rc.get("text")):
+                return ("C19/prm_error_differs", f"call #{ci}: the core reports {rc.get('text')!r}, Python {pc['res']} {pc.get('text', '')!r}"), nontrivial, len(log)
         return None, nontrivial, len(log)
     ok, why = results_equal(res, doc["rust"]["calls"])
     if not ok:
